@@ -17,6 +17,8 @@ BUDGET = {'quick': 100, 'thorough': 2500}
 
 @st.composite
 def _case(draw, tier):
+    if draw(st.integers(0, 4)) == 0:
+        return {'spec': draw(specs.conn_dv_spec()), 'enc': 'COMPLETE', 'vseed': 0}
     spec = draw(specs.sel_spec(max_nodes=9 if tier == 'quick' else 11))
     r = draw(st.integers(0, 99))
     if r < 20:
@@ -85,8 +87,9 @@ def check_case(case):
             res.add(viol('row_not_a_fixed_point', f'row={x} decodes to {rec["x_corr"]}', data=d0))
             break
         if [bool(a) for a in A[r]] != rec['active']:
+            diff = sorted({meta[i]['kind'] for i in range(len(meta)) if bool(A[r][i]) != rec['active'][i]})
             res.add(viol('row_activeness_differs', f'row={x} listed={[bool(a) for a in A[r]]} decoded={rec["active"]}',
-                         data=d0))
+                         data=dict(d0, diff_kinds=diff)))
             break
         key = proc.rec_key(rec)
         if key in seen:
